@@ -4,6 +4,7 @@
 package main
 
 import (
+	"archive/zip"
 	"bytes"
 	"crypto/sha256"
 	"encoding/binary"
@@ -11,10 +12,12 @@ import (
 	"encoding/json"
 	"fmt"
 	"hash/fnv"
+	"io"
 	"math"
 	"os"
 	"path/filepath"
 	"runtime"
+	"sort"
 	"strconv"
 	"strings"
 	"sync"
@@ -327,10 +330,29 @@ func c09Render(spec c09Spec, policy string, seed uint64, dir string, tag string)
 		}
 		h.Write(b)
 		res.Items = len(b)
-	case "3mf": // the zip container legitimately differs between runs: compare decoded content
+	case "3mf": // the zip container (entry timestamps, compression) may legitimately differ between runs: compare decoded content
+		// every part of the package, decompressed, in name order (model XML incl. metadata, relationships, content types)
+		if zr, err := zip.OpenReader(path); err == nil {
+			names := make([]string, 0, len(zr.File))
+			byName := map[string]*zip.File{}
+			for _, f := range zr.File {
+				names = append(names, f.Name)
+				byName[f.Name] = f
+			}
+			sort.Strings(names)
+			for _, nm := range names {
+				h.Write([]byte("part:" + nm + "\n"))
+				if rc, err := byName[nm].Open(); err == nil {
+					io.Copy(h, rc)
+					rc.Close()
+				}
+			}
+			zr.Close()
+		}
 		if r, err := go3mf.OpenReader(path); err == nil {
 			var mdl go3mf.Model
 			if err := r.Decode(&mdl); err == nil {
+				fmt.Fprintf(h, "units=%v lang=%q metadata=%+v build=%d\n", mdl.Units, mdl.Language, mdl.Metadata, len(mdl.Build.Items))
 				for _, o := range mdl.Resources.Objects {
 					if o.Mesh != nil {
 						for _, v := range o.Mesh.Vertices.Vertex {
